@@ -74,6 +74,11 @@ def build_docs(rng, n_create, n_delete, n_other, n_replace, two_ids, dup_ids=Fal
         if numeric:
             docs[j] = docs[j].replace('<roID>12</roID>', rng.choice(['<roID>012</roID>', '<roID>+12</roID>', '<roID>12.0</roID>']), 1)
         docs[j] = docs[j].replace('<roID>RO</roID>', rng.choice(['<roID>OTHER</roID>', '<roID />', '<roID> RO</roID>', '<roID>ro</roID>']), 1)
+    if rng.random() < 0.3:
+        # the messages of one running order may come from different senders (a stand-by NCS after a fail-over,
+        # several MOS devices): irrelevant to what a collection is
+        docs = [d.replace('<mosID>MOS ID</mosID>', '<mosID>%s</mosID><ncsID>%s</ncsID>' % (
+            rng.choice(['MOS ID', 'MOS B', 'prompter.studio1.mos']), rng.choice(['NCS1', 'NCS2', 'ncs.backup'])), 1) for d in docs]
     if rng.random() < 0.5 and len(docs) >= 2:
         # hand the message IDs out again in a random order: the roCreate need not be the first message
         import re
